@@ -86,12 +86,20 @@ func c15FrameCase(rec *kit.Rec, f c15Format, n, kind int, tail string) {
 	case "junk":
 		frame = append(append([]byte(nil), enc...), 0xA5, 0x5A, 0x01, 0xff, 0x00, 0x7f)
 	}
+	frameSnap := append([]byte(nil), frame...)
 	var dec []byte
 	var derr error
 	if pk, v, st := c15Try(func() { dec, derr = f.remove(frame) }); pk {
 		rec.Violation("msgformat:"+f.name+":decoder-panic-on-own-encoding", "the framing decoder panicked on a frame its encoder produced",
 			map[string]interface{}{"case": desc, "panic": fmt.Sprint(v), "stack": st})
 		return
+	}
+	if !bytes.Equal(frame, frameSnap) {
+		rec.Violation("msgformat:"+f.name+":decoder-modifies-its-input", "the framing decoder changed the caller's buffer", map[string]interface{}{"case": desc})
+		copy(frame, frameSnap)
+	}
+	if dec2, derr2 := f.remove(frame); (derr2 == nil) != (derr == nil) || !bytes.Equal(dec2, dec) {
+		rec.Violation("msgformat:"+f.name+":second-decode-differs", "decoding the same frame twice gives two different results", map[string]interface{}{"case": desc})
 	}
 	if derr != nil || !bytes.Equal(dec, orig) {
 		sig := "msgformat:" + f.name + ":roundtrip-mismatch"
